@@ -31,9 +31,12 @@ SPEC_N_LIMIT = 2000          # the counting spec walks 7*|n| days: only evaluate
 def m_zero_absolute(payload):
     """F-C03-zero-absolute: an absolute year / month / day equal to 0 is silently ignored (`self.year or
     other.year`) instead of being applied or rejected"""
-    d = payload.get("delta") or [None, [None] * 7]
+    kw = (payload.get("input") or {}).get("kw") or {}
+    # narrow: the zero was GIVEN as the keyword argument year= / month= / day= (a zero produced by the
+    # yearday conversion or any other internal step is NOT excused)
     return (payload.get("kind", "").startswith("absolute year/month/day = 0")
-            and any(v == 0 for v in list(d[1])[:3]))
+            and any(kw.get(k) == 0 and not isinstance(kw.get(k), bool) for k in ("year", "month", "day"))
+            and "yearday" not in kw and "nlyearday" not in kw)
 
 
 # F-C03-yearday366 was fixed in /repo by f29aa05 (its input stays in the corpus)
@@ -313,7 +316,9 @@ def run_batch(cases, oracle, want_samples=0):
         # outside the guard ONLY because an absolute year/month/day is 0 (finding F-C03-zero-absolute): the
         # documented replacement is what the spec computes (no result, or December of the previous year)
         pabs, pw = item["proj"][1], item["proj"][2]
-        if (not wf and spec is not None and any(v == 0 for v in pabs[:3])
+        kw_zero = (any(kw.get(k) == 0 for k in ("year", "month", "day"))
+                   and "yearday" not in kw and "nlyearday" not in kw)
+        if (kw_zero and not wf and spec is not None and any(v == 0 for v in pabs[:3])
                 and (pabs[1] is None or 0 <= pabs[1] <= 12) and (pw is None or 0 <= pw[0] <= 6)):
             cnt["zero_absolute_compared"] = cnt.get("zero_absolute_compared", 0) + 1
             if collapse(item["r_add"]) != spec:
